@@ -7,6 +7,26 @@ import ast
 
 from __main__ import Fact, lean_str, lean_list
 
+import importlib.util
+import os
+import sys
+
+
+def _load_norm():
+    """tools/extractors/normalise_rpc.py, loaded once per process under a name of its own (sys.path is left alone)."""
+    name = "jrv_normalise_rpc"
+    if name not in sys.modules:
+        spec = importlib.util.spec_from_file_location(
+            name, os.path.join(os.path.dirname(os.path.abspath(__file__)), "normalise_rpc.py"))
+        mod = importlib.util.module_from_spec(spec)
+        sys.modules[name] = mod
+        spec.loader.exec_module(mod)
+    return sys.modules[name]
+
+
+norm = _load_norm()
+
+
 PROPERTIES = ["C01"]
 
 
@@ -125,32 +145,44 @@ def _method_call(fn):
 
 
 def _request_result(fn):
-    """Statements of ServerProxy._request after the exchange: ('check_for_errors', subscript key returned)."""
-    var = None
-    checked = False
-    for s in fn.body:
-        if isinstance(s, ast.Assign) and isinstance(s.value, ast.Call) and isinstance(s.value.func, ast.Attribute) \
-                and s.value.func.attr == "_run_request" and len(s.targets) == 1:
-            var = _name(s.targets[0])
-        elif isinstance(s, ast.Expr) and isinstance(s.value, ast.Call) and _name(s.value.func) == "check_for_errors":
-            if var is not None and s.value.args and _name(s.value.args[0]) == var:
-                checked = True
-        elif isinstance(s, ast.Return):
-            v = s.value
-            if checked and isinstance(v, ast.Subscript) and _name(v.value) == var and isinstance(v.slice, ast.Constant):
-                return ("check_for_errors", v.slice.value)
-            return None
-        elif isinstance(s, (ast.Assign, ast.AugAssign)) and var is not None:
-            # the response is rebound between the exchange and the return
-            tg = s.targets[0] if isinstance(s, ast.Assign) else s.target
-            if _name(tg) == var:
-                return None
+    """ServerProxy._request after the exchange, on EVERY path that returns: ('check_for_errors', key) when the value
+    returned is `<response>[key]`, <response> being the local bound to the result of `_run_request`, handed to
+    check_for_errors between the exchange and the return and not re-bound in between.  Path-sensitive: guard clauses,
+    nesting, a local holding the result do not matter."""
+    seen = set()
+    for p in norm.paths(fn.body):
+        if p.end != "return":
+            continue
+        var, checked, out = None, False, None
+        for ev in norm.path_events(p):
+            if ev[0] == "call":
+                c = ev[1]
+                if _name(c.func) == "check_for_errors" and var is not None and c.args and _name(c.args[0]) == var:
+                    checked = True
+                continue
+            if ev[0] != "stmt":
+                continue
+            s = ev[1]
+            if isinstance(s, ast.Assign) and isinstance(s.value, ast.Call) and isinstance(s.value.func, ast.Attribute) \
+                    and s.value.func.attr == "_run_request" and len(s.targets) == 1 and _name(s.targets[0]):
+                var, checked = _name(s.targets[0]), False
+            elif isinstance(s, (ast.Assign, ast.AugAssign, ast.AnnAssign)) and var is not None:
+                tgs = s.targets if isinstance(s, ast.Assign) else [s.target]
+                if any(isinstance(m, ast.Name) and m.id == var for t in tgs for m in ast.walk(t) if isinstance(getattr(m, "ctx", None), ast.Store)):
+                    var = None      # the response is re-bound between the exchange and the return
+            elif isinstance(s, ast.Return):
+                v = s.value
+                if checked and var is not None and isinstance(v, ast.Subscript) and _name(v.value) == var and isinstance(v.slice, ast.Constant):
+                    out = ("check_for_errors", v.slice.value)
+        seen.add(out)
+    if len(seen) == 1:
+        return seen.pop()
     return None
 
 
 def _history_order(fn):
     """
-    Events of ServerProxy._run_request in source order: 'add_request(<request param>)', 'transport',
+    Events of ServerProxy._run_request in evaluation order (an assignment after the value it stores): 'add_request(<request param>)', 'transport',
     'add_response(<transport result>)', 'loads(<transport result>)'; an argument that is not the expected
     variable is reported as such.
     """
@@ -158,7 +190,7 @@ def _history_order(fn):
     req = params[1] if len(params) > 1 else None
     resp = None
     events = []
-    for n in sorted((m for m in ast.walk(fn) if isinstance(m, (ast.Call, ast.Assign))), key=lambda m: (m.lineno, m.col_offset)):
+    for n in (m for m, _c in norm.eval_order(fn) if isinstance(m, (ast.Call, ast.Assign))):
         if isinstance(n, ast.Assign):
             v = n.value
             if isinstance(v, ast.Call) and isinstance(v.func, ast.Attribute) and v.func.attr == "request" and len(n.targets) == 1:
@@ -178,7 +210,12 @@ def _history_order(fn):
 
 
 def _multicall_format(fn):
-    """('[ {0} ]', ',') from `"[ {0} ]".format(",".join(...))`, and whether the jobs are iterated in list order."""
+    """('[ {0} ]', ',') from `"[ {0} ]".format(",".join(...))`, and whether the jobs are iterated in list order.
+    Read on the canonical form: a list filled by a `for … append` loop is the list comprehension, a local used once
+    by the next statement is the expression it holds (`parts = […]; body = "[ {0} ]".format(",".join(parts))`)."""
+    fn = norm.clone(fn)
+    norm.loops_to_comprehensions(fn)
+    norm.fold_single_use_locals(fn)
     for n in ast.walk(fn):
         if isinstance(n, ast.Call) and isinstance(n.func, ast.Attribute) and n.func.attr == "format" \
                 and isinstance(n.func.value, ast.Constant) and isinstance(n.func.value.value, str) and len(n.args) == 1:
@@ -265,6 +302,11 @@ def _proxy_getattr(fn):
     """
     if len(fn.args.args) != 2:
         return None
+    # canonical form: `if c: raise … else: rest` is `if c: raise …` ; rest, a local returned right after it is bound is
+    # the expression it holds
+    fn = norm.clone(fn)
+    norm.guards_flat(fn.body)
+    norm.fold_single_use_locals(fn)
     param = fn.args.args[1].arg
     refuse = ret = None
     for s in fn.body:
@@ -345,6 +387,8 @@ def _method_getattr(fn):
     """
     if len(fn.args.args) != 2:
         return None
+    fn = norm.clone(fn)
+    norm.guards_flat(fn.body)
     param = fn.args.args[1].arg
     env = _locals(fn)
     special, fmt, fresh = [], None, False
@@ -416,22 +460,31 @@ def _is_clear(s, attr):
 
 
 def _multicall_clears(fn):
-    """Where MultiCall._request empties `self._job_list`, relative to the statement that calls `_run_request`:
-    'after-run-request' (an unconditional top-level statement later in the body), 'before-run-request', 'conditional'
-    (nested in another statement), 'absent'."""
-    run_at = clear_at = None
-    for i, s in enumerate(fn.body):
-        if any(isinstance(n, ast.Call) and isinstance(n.func, ast.Attribute) and n.func.attr == "_run_request" for n in ast.walk(s)):
-            run_at = i if run_at is None else run_at
-        if _is_clear(s, "_job_list"):
-            clear_at = i if clear_at is None else clear_at
-        elif any(_is_clear(n, "_job_list") for n in ast.walk(s) if isinstance(n, ast.stmt) and n is not s):
-            return "conditional"
-    if run_at is None:
+    """Where MultiCall._request empties `self._job_list`, relative to the `_run_request` call, on the paths that make
+    that call and complete normally: 'after-run-request' (on every such path, after the call), 'before-run-request'
+    (on every such path, before it), 'conditional' (on some of them only, or on both sides), 'absent'.
+    Path-sensitive: the position of the statements in the text does not matter."""
+    kinds = set()
+    for p in norm.paths(fn.body):
+        evs = norm.path_events(p)
+        run_at = [i for i, ev in enumerate(evs) if ev[0] == "call" and isinstance(ev[1].func, ast.Attribute) and ev[1].func.attr == "_run_request"]
+        if not run_at or any(ev[0] == "except" for ev in evs):
+            continue
+        clears = [i for i, ev in enumerate(evs) if (ev[0] == "stmt" and _is_clear(ev[1], "_job_list")) or
+                  (ev[0] == "call" and _is_clear(ast.Expr(value=ev[1]), "_job_list"))]
+        if not clears:
+            kinds.add("absent")
+        elif all(i > run_at[0] for i in clears):
+            kinds.add("after-run-request")
+        elif all(i < run_at[0] for i in clears):
+            kinds.add("before-run-request")
+        else:
+            kinds.add("conditional")
+    if not kinds:
         return None
-    if clear_at is None:
-        return "absent"
-    return "after-run-request" if clear_at > run_at else "before-run-request"
+    if len(kinds) == 1:
+        return kinds.pop()
+    return "conditional"
 
 
 def _getattr_appends(fn, notify):
@@ -439,6 +492,8 @@ def _getattr_appends(fn, notify):
     job list (`self._job_list` / `self.multicall._job_list`) and returns it."""
     if len(fn.args.args) != 2:
         return None
+    # a local alias of the job list (`jobs = self._job_list`, the attribute never re-bound here) is the list itself
+    fn = norm.unalias_self_attrs(norm.clone(fn))
     param = fn.args.args[1].arg
     var = None
     appended = returned = False
@@ -459,6 +514,7 @@ def _getattr_appends(fn, notify):
 
 
 def facts(src):
+    src = norm.nsource(src)
     out = []
     fn = src.func("jsonrpc", "_Method.__call__")
     mc = _method_call(fn) if fn is not None else None
